@@ -339,6 +339,9 @@ func (e *enc) instr(b *ssa.BasicBlock, ins ssa.Instruction) {
 			e.assume(fmt.Sprintf("(= (select %s %s) ((as const (Array %s %s)) %s))", e.hname(arr), ar, e.isort(), e.smtSort(es), z))
 		}
 	case *ssa.MakeInterface:
+		if t, ok := e.taint[i.X]; ok {
+			e.taint[i] = t // a boxed guarded container is still that container
+		}
 		if c, isC := i.X.(*ssa.Const); isC && c.Value == nil {
 			if _, isPtr := i.X.Type().Underlying().(*types.Pointer); isPtr {
 				// a literal typed nil pointer ((*T)(nil), e.g. for reflect.TypeOf): deliberately an interface
